@@ -225,6 +225,19 @@ def check_history(ctx, case):
     default_atmo = Shot(Weapon(), Ammo(DragModel(0.3, pb.TableG7), Velocity.FPS(2500))).atmo
     if not rel(default_atmo.density_ratio * RHO0, isa(0.0)[2]) <= REL:
         ctx.violation("history.default-shot-atmosphere", f"default Shot().atmo has density ratio {default_atmo.density_ratio!r} after earlier instances were modified", case)
+    # a station that already answered altitude queries gets another humidity: it must answer like a fresh station
+    st = Atmo(Distance.Foot(h), Pressure.hPa(900.0), Temperature.Celsius(12.0), 10.0)
+    qs = [h, h + 10.0, h + 500.0, h - 700.0, h + 5000.0]
+    for q in qs:
+        st.get_density_factor_and_mach_for_altitude(q)
+    st.humidity = case["humidity"]
+    fresh = Atmo(Distance.Foot(h), Pressure.hPa(900.0), Temperature.Celsius(12.0), case["humidity"])
+    for q in qs:
+        if st.get_density_factor_and_mach_for_altitude(q) != fresh.get_density_factor_and_mach_for_altitude(q):
+            ctx.violation("history.humidity-set-after-queries", f"station at {h} ft queried at {q} ft, humidity then set to {case['humidity']}: "
+                                                                f"{st.get_density_factor_and_mach_for_altitude(q)} but a fresh station gives "
+                                                                f"{fresh.get_density_factor_and_mach_for_altitude(q)}", case)
+            break
     # same bare number, other preferred distance unit
     x = case["bare"]
     PreferredUnits.distance = Unit.Foot
